@@ -234,17 +234,20 @@ let () =
           let (_, text) = split_bar line in
           let (op, _) = read_a64_op r in
           let op = Fmt.a64_canon_op op in
+          let dom = if Fmt.a64_op_okb (fst (read_a64_op r)) then "in" else "out" in
           (match Fmt.parse_a64_operand (text_of_string text) with
            | Some got when got = op -> print_endline "P ok"
-           | Some got -> Printf.printf "P MISMATCH parsed=%s\n" (show_a64_op got)
-           | None -> print_endline "P MISMATCH parsed=<no parse>")
+           | Some got -> Printf.printf "P MISMATCH parsed=%s DOMAIN=%s\n" (show_a64_op got) dom
+           | None -> Printf.printf "P MISMATCH parsed=<no parse> DOMAIN=%s\n" dom)
         | "P" :: "X" :: arch :: r when arch = a64 ->
           let (_, text) = split_bar line in
-          let want = Fmt.a64_canon_inst (read_a64_inst ~with_comment:false r) in
+          let given = read_a64_inst ~with_comment:false r in
+          let want = Fmt.a64_canon_inst given in
+          let dom = if Fmt.a64_inst_okb given then "in" else "out" in
           (match Fmt.parse_a64_inst (text_of_string text) with
            | Some got when got = want -> print_endline "P ok"
-           | Some got -> Printf.printf "P MISMATCH parsed=%s want=%s\n" (show_a64_inst got) (show_a64_inst want)
-           | None -> print_endline "P MISMATCH parsed=<no parse>")
+           | Some got -> Printf.printf "P MISMATCH parsed=%s want=%s DOMAIN=%s\n" (show_a64_inst got) (show_a64_inst want) dom
+           | None -> Printf.printf "P MISMATCH parsed=<no parse> DOMAIN=%s\n" dom)
         | "F" :: pad1 :: pad2 :: mc :: bytes :: rel :: imm :: comment :: _ ->
           let (_, text) = split_bar line in
           let bin = if mc = "1" then Some ((bytes_of_hex bytes, nat_of_int (int_of_string rel)), nat_of_int (int_of_string imm)) else None in
@@ -317,6 +320,29 @@ let () =
             | _ -> raise (Bad "node")) in
           Printf.printf "Z %s\n" (string_of_text (Fmt.fmt_node_pos (int_of_string ff land ff_positions <> 0) (cz_of_string pos) f (nat_of_int 44) node
                                                      (if inl = "-" then [] else text_of_string inl)))
+        | "P" :: "ZN" :: _ ->
+          (* the proven reader of non-instruction Builder nodes *)
+          let (_, text) = split_bar line in
+          (match Fmt.parse_node_body (text_of_string text) with
+           | Some (Fmt.NLabel id) -> Printf.printf "P L %s\n" (string_of_cz id)
+           | Some (Fmt.NAlign (k, code)) -> Printf.printf "P A %s %s\n" (if code then "0" else "1") (string_of_cz k)
+           | Some (Fmt.NSection nm) -> Printf.printf "P S %s\n" (string_of_text nm)
+           | Some (Fmt.NEmbedLabel (id, _)) -> Printf.printf "P EL %s\n" (string_of_cz id)
+           | Some (Fmt.NEmbedLabelDelta (id, b, _)) -> Printf.printf "P EX %s %s\n" (string_of_cz id) (string_of_cz b)
+           | Some (Fmt.NConstPool (sz, al)) -> Printf.printf "P CP %s %s\n" (string_of_cz sz) (string_of_cz al)
+           | Some (Fmt.NSentinel fe) -> Printf.printf "P SN %s\n" (if fe then "1" else "0")
+           | Some _ -> print_endline "P <other node>"
+           | None -> print_endline "P <no parse>")
+        | "P" :: "DB" :: _ ->
+          (* the bytes a data line denotes: proven parse_data, then DataBytes.data_bytes with the item size of the directive word *)
+          let (_, text) = split_bar line in
+          (match Fmt.parse_data (text_of_string text) with
+           | Some ((rp, w), items) ->
+             let size = (match string_of_text w with ".db" | ".byte" -> 1 | ".dw" | ".hword" -> 2 | ".dd" | ".word" -> 4 | ".dq" | ".xword" -> 8 | _ -> 0) in
+             if size = 0 then print_endline "P <unknown directive>" else
+             let bs = Fmt.data_bytes (nat_of_int size) items (nat_of_int (Z.to_int (z_of_cz rp))) in
+             Printf.printf "P %s\n" (String.concat "" (List.map (fun b -> Printf.sprintf "%02x" (Z.to_int (z_of_cz b))) bs))
+           | None -> print_endline "P <no parse>")
         | "P" :: "D" :: _ ->
           let (_, text) = split_bar line in
           (match Fmt.parse_data (text_of_string text) with
@@ -424,14 +450,16 @@ let () =
             | None -> Printf.sprintf "%s N" (string_of_text ty)
             | Some (ind, Fmt.FAReg r) -> Printf.sprintf "%s R %s %s" (string_of_text ty) (sr r) (if ind then "i" else "d")
             | Some (ind, Fmt.FAStack off) -> Printf.sprintf "%s S %s %s" (string_of_text ty) (string_of_cz off) (if ind then "i" else "d")) in
-          let out sr res = (match res with
+          let out sr okb res = (match res with
+            | Some ((id, ret), args) when not (okb ret args) ->
+              ignore id; print_endline "P <read, but the premise of the FuncNode-line theorem (func_line_okb) does not hold for what was read>"
             | Some ((id, ret), args) ->
               Printf.printf "P %s ## %s ## %s\n" (string_of_cz id)
                 (match ret with None -> "void" | Some (ty, a) -> showv ty a sr)
                 (String.concat "; " (List.map (fun ((ty, a), nm) -> showv ty a sr ^ " " ^ (match nm with None -> "-" | Some n -> string_of_text n)) args))
             | None -> print_endline "P <no parse>") in
-          if arch = a64 then out (fun (t, i) -> Printf.sprintf "%s %s" (string_of_cz (Fmt.a64rt_code t)) (string_of_cz i)) (Fmt.parse_func_line Fmt.a64_pr (text_of_string text))
-          else out (fun (t, i) -> Printf.sprintf "%s %s" (show_rt t) (string_of_cz i)) (Fmt.parse_func_line Fmt.parse_reg_name (text_of_string text))
+          if arch = a64 then out (fun (t, i) -> Printf.sprintf "%s %s" (string_of_cz (Fmt.a64rt_code t)) (string_of_cz i)) Fmt.a64_func_line_okb (Fmt.parse_func_line Fmt.a64_pr (text_of_string text))
+          else out (fun (t, i) -> Printf.sprintf "%s %s" (show_rt t) (string_of_cz i)) Fmt.x86_func_line_okb (Fmt.parse_func_line Fmt.parse_reg_name (text_of_string text))
         | "P" :: "Q" :: arch :: _ ->
           (* the proven reader on one function value as printed by AsmJit *)
           let (_, text) = split_bar line in
@@ -475,6 +503,13 @@ let () =
                      (match pk with "0" -> Fmt.PNone | "1" -> Fmt.PNamed (text_of_string pname) | _ -> Fmt.PUnnamed (cz_of_string pid)),
                      text_of_string name) in
           Printf.printf "B %s\n" (string_of_text (Fmt.fmt_label info))
+        | "PLP" :: _ ->
+          (* a whole log WITHOUT kMachineCode through the proven parse_plain_log: "PLP text ### comment ||| text ### comment ..." ('-' = no comment) *)
+          let (_, text) = split_bar line in
+          let l = String.map (fun c -> if c = '$' then '\n' else c) text in
+          (match Fmt.parse_plain_log (text_of_string l) with
+           | Some ls -> Printf.printf "PLP %s\n" (String.concat " ||| " (List.map (fun (t, c) -> string_of_text t ^ " ### " ^ (match c with None -> "-" | Some x -> string_of_text x)) ls))
+           | None -> print_endline "PLP <no parse>")
         | "PL" :: _ ->
           (* a whole log (several lines, '$' = newline) through the proven parse_log + columns_bytes: answer = number of lines and the bytes of all columns *)
           let (_, text) = split_bar line in
@@ -506,6 +541,7 @@ let () =
                | vt :: nm :: rest -> env (n - 1) rest (((if nm = "-" then None else Some (text_of_string nm)), Fmt.a64rt_of_code (cz_of_string vt)) :: acc)
                | _ -> raise (Bad "venv")) in
           let (e, _) = env (int_of_string nv) r [] in
+          if not (Fmt.env_ok64b e) then print_endline "P MISMATCH the environment does not satisfy env_ok64" else
           (match Fmt.read_a64_virt e (text_of_string text) with
            | Some ((ix, suf), ei) -> Printf.printf "P %s %s %s\n" (string_of_cz ix) (let x = string_of_text suf in if x = "" then "-" else x) (match ei with None -> "-1" | Some k -> string_of_cz k)
            | None -> print_endline "P <no parse>")
@@ -517,7 +553,7 @@ let () =
                | _ -> raise (Bad "venv")) in
           let (e, rest) = env (int_of_string nv) r [] in
           (* the side conditions of the theorem are checked on the environment *)
-          let names_ok = List.for_all (fun (nm, _) -> match nm with None -> true | Some n -> Fmt.name_okb n) e in
+          let names_ok = Fmt.env_okb e in      (* the decidable form of the theorem's hypothesis env_ok (EnvCheck.env_okb_sound) *)
           let got = (match Fmt.read_reg e (text_of_string text) with
             | Some (Fmt.RPhys (t, i)) -> Printf.sprintf "R %s %s" (show_rt t) (string_of_cz i)
             | Some (Fmt.RVirt (i, c)) -> Printf.sprintf "V %s %s" (string_of_cz i) (match c with None -> "-" | Some t -> show_rt t)
@@ -544,10 +580,11 @@ let () =
           let (_, text) = split_bar line in
           let (op, _) = read_x86_op r in
           let want = Fmt.canon_op op in
+          let dom = if Fmt.op_vis_okb op then "in" else "out" in
           (match Fmt.parse_operand (text_of_string text) with
            | Some got when got = want -> print_endline "P ok"
-           | Some got -> Printf.printf "P MISMATCH parsed=%s\n" (show_op got)
-           | None -> print_endline "P MISMATCH parsed=<no parse>")
+           | Some got -> Printf.printf "P MISMATCH parsed=%s DOMAIN=%s\n" (show_op got) dom
+           | None -> Printf.printf "P MISMATCH parsed=<no parse> DOMAIN=%s\n" dom)
         | "P" :: "XS6" :: _ ->
           let (_, text) = split_bar line in
           (match Fmt.parse_a64_inst (text_of_string text) with
@@ -563,10 +600,11 @@ let () =
           let (_, text) = split_bar line in
           let (i, _, _) = read_inst ~with_comment:false r in
           let want = Fmt.canon_inst i in
+          let dom = if Fmt.inst_okb i then "in" else "out" in
           (match Fmt.parse_inst (text_of_string text) with
            | Some got when got = want -> print_endline "P ok"
-           | Some got -> Printf.printf "P MISMATCH parsed=%s want=%s\n" (show_inst got) (show_inst want)
-           | None -> print_endline "P MISMATCH parsed=<no parse>")
+           | Some got -> Printf.printf "P MISMATCH parsed=%s want=%s DOMAIN=%s\n" (show_inst got) (show_inst want) dom
+           | None -> Printf.printf "P MISMATCH parsed=<no parse> DOMAIN=%s\n" dom)
         | _ -> print_endline "? unknown command"
       with
       | Bad m -> Printf.printf "? bad command (%s)\n" m
